@@ -113,10 +113,11 @@ impl StreamingQueryExecutor {
             .iter()
             .map(|chunk| chunk.chunk_path.clone())
             .collect();
-        let historical_batches = self
+        let plan = self
             .engine
-            .with_metrics_table(&chunk_paths, || async { self.engine.execute(sql).await })
+            .plan_with_metrics_table(&chunk_paths, sql)
             .await?;
+        let historical_batches = self.engine.execute_plan(plan).await?;
 
         let receiver = self.receiver;
 
